@@ -25,7 +25,7 @@ def run(ctx):
     joins = [c for c in A.calls_in(pub.node) if isinstance(c.func, ast.Attribute) and c.func.attr == "join"]
     gp = q.cfg(pub, q.quiet_policy(repo))
     elts = []
-    if len(joins) == 1 and isinstance(joins[0].args[0], ast.List):
+    if len(joins) == 1 and isinstance(joins[0].args[0], (ast.List, ast.Tuple)):
         st_ = A.enclosing_stmt(joins[0], A.parents(pub.node))
         ids_ = gp.nodes_of(st_) if st_ is not None else []
         # every element with the function's temporaries followed back (the copy may have its own name)
@@ -97,10 +97,14 @@ def run(ctx):
             for h in hs:
                 ifs = [x for x in h.body if isinstance(x, ast.If) and A.norm(x.test) == "self._strict"]
                 # strict: raise; otherwise the frame is dropped: `else: ...; continue` or a `continue` after the if (the raise leaves)
+                loops_ = [l_ for l_ in A.walk_stmts(poll.node.body) if isinstance(l_, ast.While)]
+                falls_to_next_frame = bool(loops_) and q.in_tail_position(loops_[0], p) and not p.finalbody and not any(isinstance(z, (ast.Return, ast.Break)) for z in A.walk_stmts(h.body))
                 good = bool(ifs) and any(isinstance(y, ast.Raise) and "Bluesky0MQDecodeError" in A.norm(y) for y in ifs[0].body) and \
                     ((bool(ifs[0].orelse) and isinstance(ifs[0].orelse[-1], ast.Continue)) or
                      (not ifs[0].orelse and isinstance(ifs[0].body[-1], ast.Raise) and isinstance(A.body(h.body)[-1], ast.Continue)
-                      and not any(isinstance(z, (ast.Return, ast.Break)) for z in A.walk_stmts(h.body))))
+                      and not any(isinstance(z, (ast.Return, ast.Break)) for z in A.walk_stmts(h.body))) or
+                     # nothing follows the try in the loop body (what is delivered sits in its else part): dropping = falling off the handler
+                     (isinstance(ifs[0].body[-1], ast.Raise) and falls_to_next_frame))
                 ok = ok and good
             why = "its handler does not (raise Bluesky0MQDecodeError if strict else continue)"
         ctx.ob("C33.D2-malformed-frames-dropped", cname(poll, s), ok,
